@@ -102,9 +102,21 @@ def run_case(case, ctx):
         if case["withX"]:
             X = pd.DataFrame({"zeta": rng.normal(0, 1, n), "alpha": np.arange(n) * 0.1}, index=y.index)      # column labels not in sorted order
         cv = zoo.build_cv(case["cv"])
+        if case["dseed"] % 4 == 1 and case["cv"][0] in ("sliding", "expanding"):
+            # a splitter object with an earlier life: used on this series under another step length, then set back to the case's own
+            own = cv.step_length
+            cv.step_length = own + 2
+            list(cv.split(y))
+            cv.step_length = own
+            ctx.tag("splitter:used-before-under-another-step-length")
         scoring = zoo.build_metric(case["scoring"])
         f = _build(case["forecaster"], lid)
+        # the folds of the case, from a newly made splitter (the one handed to evaluate may have a history)
+        splits_new = [(np.asarray(tr), np.asarray(te)) for tr, te in zoo.build_cv(case["cv"]).split(y)]
         splits = [(np.asarray(tr), np.asarray(te)) for tr, te in cv.split(y)]
+        ctx.check("rows", len(splits) == len(splits_new) and all(np.array_equal(a[0], b[0]) and np.array_equal(a[1], b[1]) for a, b in zip(splits, splits_new)),
+                  "evaluate:used-splitter-yields-other-folds-than-a-new-one", "a splitter object that was used before yields other folds than a newly made splitter with the same settings",
+                  used=len(splits), new=len(splits_new))
         for i_, (tr_, te_) in enumerate(splits):
             # what evaluate is asked to do must itself be honest: a fold whose training window reaches its own test points cannot be scored without look-ahead
             ctx.check("leak", len(tr_) > 0 and len(te_) > 0 and int(tr_.max()) < int(te_.min()), "evaluate:fold-training-window-reaches-its-test-points",
